@@ -310,7 +310,7 @@ def _ri_pre(self):
 _PATHS = ty.SeqOf(ty.Str)
 
 
-@contract("stepup/core/nglob.py::NamedGlob.extend", props=["C17"])
+@contract("stepup/core/nglob.py::NamedGlob.extend", props=["C17", "C04"])
 class ng_extend:
     """Afterwards exactly the previously recorded paths and the accepted ones among `paths` are recorded."""
 
@@ -322,7 +322,7 @@ class ng_extend:
     modifies = ["self._results"]
 
 
-@contract("stepup/core/nglob.py::NamedGlob.reduce", props=["C17"])
+@contract("stepup/core/nglob.py::NamedGlob.reduce", props=["C17", "C04"])
 class ng_reduce:
     """Afterwards exactly the previously recorded paths that are not among `paths` are recorded."""
 
@@ -368,7 +368,7 @@ def _wc_post(self, deleted, added, result, old):
     return wrap_bool(tm.And(untouched, tm.mk_bool(result is not self), RI(self, re_, assume=False), is_evolved, differs))
 
 
-@contract("stepup/core/nglob.py::NamedGlob.will_change", props=["C17"])
+@contract("stepup/core/nglob.py::NamedGlob.will_change", props=["C17", "C04"])
 class ng_will_change:
     """The evolved copy records (recorded union accepted added) minus deleted; None iff that changes nothing."""
 
